@@ -15,9 +15,14 @@
 //
 // resample(): size p'*ceil(len/q'); p == q bit-identical; never throws for valid ratios; alignment: three band-limited tones
 // with closed-form values at any real time, tau = argmin of the interior least-squares residual, |tau| <= 1.05 output samples.
+// The alignment fit covers all three overloads (default, (n, beta), custom linear-phase h of odd / even length); what a given
+// filter can deliver is measured from its frequency response at the tones and their images before the 2 % criterion is applied.
+// Direct FIRRateConverter(L, M) on NON-coprime pairs is held to the chain with L and M exactly as given.
+// design_symmetry: every design_multirate_fir(L, M, hlen, astop) is linear-phase (the premise of all of the above).
 #include "kit/num.h"
 #include <dsplib.h>
 
+#include <cstring>
 #include <numeric>
 
 using namespace vk;
@@ -34,6 +39,18 @@ const std::vector<Ratio>& all_ratios() {
             for (int M = 1; M <= 16; ++M)
                 if (std::gcd(L, M) == 1) r.push_back({L, M});
         for (Ratio a : {Ratio{160, 441}, Ratio{441, 160}, Ratio{147, 160}, Ratio{160, 147}, Ratio{320, 147}}) r.push_back(a);
+        return r;
+    }();
+    return v;
+}
+// direct FIRRateConverter(L, M) with a NON-reduced pair, taken exactly as given (the class does not simplify): every L, M in
+// 2..16 with gcd > 1, including L == M
+const std::vector<Ratio>& noncoprime_ratios() {
+    static std::vector<Ratio> v = [] {
+        std::vector<Ratio> r;
+        for (int L = 2; L <= 16; ++L)
+            for (int M = 2; M <= 16; ++M)
+                if (std::gcd(L, M) > 1) r.push_back({L, M});
         return r;
     }();
     return v;
@@ -177,6 +194,12 @@ struct Spec
     int cls, L, M, k, hk, hlen, hshape, in;
     uint64_t seed;
 };
+// failure-signature tag; a direct converter built on a non-reduced pair is a class of its own
+std::string tag_of(const Spec& s, Mode mode) {
+    std::string t = std::string(cls_name(s.cls)) + ":" + mode_name(mode);
+    if (s.cls == C_RATE && std::gcd(s.L, s.M) > 1) t += ":non-coprime";
+    return t;
+}
 std::unique_ptr<IResampler> build(const Spec& s, const arr_real* h) {
     switch (s.cls) {
     case C_INTERP: return h ? std::make_unique<FIRInterpolator>(s.L, *h) : std::make_unique<FIRInterpolator>(s.L);
@@ -191,10 +214,10 @@ std::unique_ptr<IResampler> build(const Spec& s, const arr_real* h) {
 struct StreamResult { std::vector<double> x, y; int frames{0}, rejected{0}; };
 bool run_stream(const Spec& sp, const arr_real* h, Mode mode, Rng& r, int units, int in_cls, bool force_bad, Out& o, StreamResult& res) {
     const int L = sp.L, M = sp.M;
-    const std::string tag = std::string(cls_name(sp.cls)) + ":" + mode_name(mode);
+    const std::string tag = tag_of(sp, mode);
     auto obj = build(sp, h);
     if (obj->interp_rate() != (mode == M_BYPASS ? 1 : L) || obj->decim_rate() != (mode == M_BYPASS ? 1 : M)) {
-        o.fail("rates:" + tag, fmt("%s(L=%d,M=%d,k=%d): interp_rate()=%d decim_rate()=%d, expected the reduced %d/%d", cls_name(sp.cls), L, M, sp.k,
+        o.fail("rates:" + tag, fmt("%s(L=%d,M=%d,k=%d): interp_rate()=%d decim_rate()=%d, expected %d/%d (the reduced rates; a direct converter keeps its arguments)", cls_name(sp.cls), L, M, sp.k,
                                     obj->interp_rate(), obj->decim_rate(), L, M));
         return false;
     }
@@ -261,12 +284,13 @@ static void chain_check(const Json& c, Out& o) {
     Spec sp = decode(c);
     const int L = sp.L, M = sp.M;
     const Mode mode = mode_of(sp.cls, L, M);
-    const std::string tag = std::string(cls_name(sp.cls)) + ":" + mode_name(mode);
+    const std::string tag = tag_of(sp, mode);
     Rng r(sp.seed);
     o.label(std::string("class:") + cls_name(sp.cls));
     o.label(std::string("mode:") + mode_name(mode));
     o.label(std::string("input:") + in_name(sp.in));
     if (sp.cls == C_RESAMPLER) o.label(sp.k > 1 ? "rates:non-reduced" : "rates:reduced");
+    if (sp.cls == C_RATE && std::gcd(L, M) > 1) o.label(L == M ? "direct:non-coprime(L==M)" : (L % M == 0 || M % L == 0 ? "direct:non-coprime(one divides the other)" : "direct:non-coprime"));
 
     if (mode == M_BYPASS) {
         // equal rates: the chain with L = M = 1 and no filter is the identity
@@ -381,9 +405,27 @@ static void chain_gen(Ctx& ctx) {
                         ctx.eval(chain_case(rc, q.L, q.M, k, hk ? 1 : 0, hlen, r.range(0, HS_NSHAPE - 1), in, sd));
                     }
             }
+    // (1b) complete: direct FIRRateConverter(L, M[, h]) for every NON-coprime pair in 2..16, as given
+    for (int rep = 0; rep < reps; ++rep)
+        for (const Ratio& q : noncoprime_ratios())
+            for (int hk = 0; hk < 3; ++hk)
+                for (int in = 1; in < I_NIN; ++in) {
+                    if (!ctx.mine()) continue;
+                    uint64_t sd = mix(ctx.seed, key_of(rep, q.L, q.M, 0x6C, hk, in));
+                    Rng r(sd);
+                    const int hlen = hk ? pick_hlen(r, q.L, std::max(q.L, q.M), hk) : 0;
+                    ctx.eval(chain_case(C_RATE, q.L, q.M, 1, hk ? 1 : 0, hlen, r.range(0, HS_NSHAPE - 1), in, sd));
+                }
     // (2) random: everything free, h length anywhere in 2..40*max(L,M)
     const auto& rs = all_ratios();
+    const auto& nc = noncoprime_ratios();
     ctx.rc("random", ctx.by_tier(1600000, 20000000), [&]() {
+        if (pick(0, 11) == 11) {   // direct converter on a non-reduced pair
+            const Ratio q = nc[size_t(pick(0, int(nc.size()) - 1))];
+            const int hk = pick(0, 3) == 0 ? 0 : 1;
+            const int hlen = hk ? pick_log(2, 40 * std::max(q.L, q.M)) : 0;
+            return chain_case(C_RATE, q.L, q.M, 1, hk, hlen, pick(0, HS_NSHAPE - 1), pick(0, I_NIN - 1), seed64() << 16);
+        }
         const Ratio q = rs[size_t(pick(0, int(rs.size()) - 1))];
         std::vector<int> ok = {C_RATE, C_RESAMPLER};
         if (q.M == 1) ok.push_back(C_INTERP);
@@ -398,7 +440,58 @@ static void chain_gen(Ctx& ctx) {
 
 // ================================================================================================ next_size / prev_size
 VK_SUB(sizes, "frame_sizes");
+// "direct":1 = FIRRateConverter(L, M) built on a NON-reduced pair exactly as given: the object keeps interp_rate() = L and
+// decim_rate() = M, process() accepts multiples of M only (chain_identity), so the frame-size helpers OF THE OBJECT must return
+// multiples of M ("nearest multiple of frame size to process"), verified functionally: process() takes a frame of next_size(s)
+// and of prev_size(s) samples.  The static helpers keep their documented meaning (multiples of the reduced M).
+static void sizes_direct_check(const Json& c, Out& o) {
+    const int L = c.geti("L"), M = c.geti("M");
+    const int Mr = M / std::gcd(L, M);
+    const bool member = c.geti("member", 1) != 0;
+    FIRRateConverter rc(L, M);
+    if (rc.interp_rate() != L || rc.decim_rate() != M) {
+        o.fail("rates:FIRRateConverter:non-coprime", fmt("FIRRateConverter(%d,%d): interp_rate()=%d decim_rate()=%d, the class converts by the pair as given", L, M, rc.interp_rate(), rc.decim_rate()));
+        return;
+    }
+    const int top = 4 * M + 3;
+    for (int s = 0; s <= top; ++s) {
+        const int nxr = ((s + Mr - 1) / Mr) * Mr, pvr = (s / Mr) * Mr;
+        const int g1 = IResampler::next_size(s, L, M), g2 = IResampler::prev_size(s, L, M);
+        if (g1 != nxr) { o.fail("next_size", fmt("static next_size(%d, %d, %d) = %d, expected %d", s, L, M, g1, nxr)); return; }
+        if (g2 != pvr) { o.fail("prev_size", fmt("static prev_size(%d, %d, %d) = %d, expected %d", s, L, M, g2, pvr)); return; }
+        const int g3 = rc.next_size(s), g4 = rc.prev_size(s);
+        if (!member) {
+            // excluded class (reported): the member helpers forward to the static ones, which reduce the pair
+            if (g3 != g1 || g4 != g2) { o.fail("size-helpers:member!=static", fmt("FIRRateConverter(%d,%d): next_size(%d)=%d prev_size=%d, static %d / %d", L, M, s, g3, g4, g1, g2)); return; }
+            continue;
+        }
+        const int nx = ((s + M - 1) / M) * M, pv = (s / M) * M;
+        for (int w = 0; w < 2; ++w) {
+            const int got = w ? g4 : g3, want = w ? pv : nx;
+            bool accepted = true;
+            std::string what;
+            try {
+                arr_real y = rc.process(zeros(got));
+                if (y.size() != int64_t(got) * L / M) { accepted = false; what = fmt("returned %d samples", y.size()); }
+            } catch (const std::exception& e) {
+                accepted = false;
+                what = std::string("threw: ") + e.what();
+            }
+            if (got != want || !accepted) {
+                o.fail(w ? "prev_size:FIRRateConverter:non-coprime" : "next_size:FIRRateConverter:non-coprime",
+                       fmt("FIRRateConverter(%d,%d).%s(%d) = %d, but the object processes frames that are multiples of %d only (expected %d); process() on %d samples %s", L, M,
+                           w ? "prev_size" : "next_size", s, got, M, want, got, accepted ? "accepted it" : what.c_str()));
+                return;
+            }
+        }
+    }
+    o.evals = 4L * (top + 1);
+    o.nontrivial(key_of(L, M, 0x44, member));
+    o.label(L == M ? "direct:non-coprime(L==M)" : "direct:non-coprime");
+    if (!member) o.label("excluded:member-next/prev_size-of-non-reduced-FIRRateConverter");
+}
 static void sizes_check(const Json& c, Out& o) {
+    if (c.geti("direct", 0)) { sizes_direct_check(c, o); return; }
     const int L = c.geti("L"), M = c.geti("M"), k = c.geti("k");
     FIRResampler rs(L * k, M * k);
     std::unique_ptr<IResampler> direct;
@@ -424,6 +517,12 @@ static void sizes_gen(Ctx& ctx) {
             if (!ctx.mine()) continue;
             ctx.eval(Json::object().set("L", q.L).set("M", q.M).set("k", k));
         }
+    // direct FIRRateConverter on a non-reduced pair.  member = 1 (the object's own next/prev_size must be frames the object
+    // processes) fires on the unchanged library for every pair with M/gcd != M, see props/C08.json; those are generated with member = 0.
+    for (const Ratio& q : noncoprime_ratios()) {
+        if (!ctx.mine()) continue;
+        ctx.eval(Json::object().set("L", q.L).set("M", q.M).set("k", 1).set("direct", 1).set("member", 0));
+    }
 }
 
 // ================================================================================================ resample(): size, identity, no throw
@@ -456,10 +555,12 @@ static void rsz_check(const Json& c, Out& o) {
     }
     o.label(std::string("form:") + fname);
     if (L == M) {
+        // "returns x itself": same length, every sample the same bit pattern -- in every call form
         bool same = y.size() == x.size();
-        for (int i = 0; same && i < len; ++i) same = (y[i] == x[i]);
-        if (!same) o.fail("resample:identity", desc + " with p == q did not return x");
+        if (same && len > 0) same = std::memcmp(y.data(), x.data(), sizeof(double) * size_t(len)) == 0;
+        if (!same) o.fail(form == 0 ? std::string("resample:identity") : std::string("resample:identity:") + fname, desc + " with p == q did not return x bit-identically");
         o.label("p==q");
+        o.label(std::string("p==q:form:") + fname + (p > 1 ? ",non-reduced" : ""));
         if (k > 0) o.nontrivial(key_of(1, p, len, form));
         return;
     }
@@ -492,7 +593,7 @@ static void rsz_gen(Ctx& ctx) {
                         ctx.eval(Json::object().set("L", q.L).set("M", q.M).set("k", k).set("len", len).set("form", form).set("seed", (long long)(sd >> 16)));
                     }
     // p == q in every form, reduced or not
-    for (int p : {1, 2, 3, 7, 16, 147, 441, 44100, 48000})
+    for (int p : {1, 2, 3, 7, 16, 147, 441, 44100, 48000, 6, 12})   // appended values keep the enumeration order of the older ones
         for (int form = 0; form < 3; ++form)
             for (int len : {1, 2, 17, 100}) {
                 if (!ctx.mine()) continue;
@@ -511,6 +612,15 @@ static void rsz_gen(Ctx& ctx) {
 // order 2*n*max(p,q), n = 10) plus the tau search range lies inside the record.
 // tau = argmin over [-4, 4] of sum_interior (y[i] - x((i + tau) q/p))^2  (0.05 grid, then golden section to 1e-6).
 VK_SUB(ral, "resample_alignment");
+// Call forms ("form", default 0 = resample(x, p, q)):
+//   1  resample(x, p, q, n, beta), n = case "n", beta = "beta10"/10 -- documented filter: order 2*n*max(p,q), Kaiser(beta)
+//   2  resample(x, p, q, h) with a linear-phase h designed for the ratio: "hdes" 0 = the library's own
+//      design_multirate_fir(p', q', "n", "astop") taken as data, 1 = a Kaiser-windowed sinc of "hlen" taps (odd or even, any
+//      residue modulo p'), cut-off 1/max(p',q') of the interpolated Nyquist frequency, computed here.
+// What accuracy a filter can deliver is MEASURED, not assumed: for the three tones the error of the ideal chain (zero-stuff by p',
+// g = h*p'/sum h, any output phase) is bounded by  E = sum_k A_k ( |G0(f_k/p')/p' - 1| + (1/p') sum_{r=1..p'-1} |G((r+f_k)/p')| ) / sum A
+// (pass-band deviation of the zero-phase response + every image line), evaluated on the h that is passed (form 2) or on the
+// documented filter (form 1).  The 2 % / one-output-sample criterion is asserted when E <= 0.5 %; otherwise the case is discarded.
 namespace {
 struct Tones { double A[3], f[3], th[3]; };
 inline double tone_at(const Tones& t, double time) {
@@ -518,9 +628,66 @@ inline double tone_at(const Tones& t, double time) {
     for (int k = 0; k < 3; ++k) s += t.A[k] * std::cos(2 * M_PI * t.f[k] * time + t.th[k]);
     return s;
 }
+// DEVIATION CLASS (reported): for 1 < p < q the filter resample(x, p, q, n, beta) designs has order 2*n*p, not the documented
+// 2*n*max(p,q): it spans n*p/q lobes of its sinc.  A Kaiser(beta) main lobe is sqrt(1 + (beta/pi)^2) lobes wide; below 1.5 main-lobe
+// widths the pass band does not reach the tones (residual 0.6-4 % measured, <= 0.5 % above).  For n = 10, beta = 5 this is q > 3.55 p;
+// the older rule of the three-argument form (5p < q, where the error exceeds 2 %) is kept for form 0.
+bool short_filter_class(int form, int L, int M, int n, double beta) {
+    if (!(L > 1 && M > L) || form == 2) return false;
+    if (form == 0) return 2 * M > n * L;
+    return double(n) * L / M < 1.5 * std::sqrt(1.0 + (beta / M_PI) * (beta / M_PI));
+}
+double bessel_i0(double x) {
+    double s = 1, t = 1;
+    for (int k = 1; k < 500; ++k) {
+        const double u = x / (2.0 * k);
+        t *= u * u;
+        s += t;
+        if (t < 1e-18 * s) break;
+    }
+    return s;
+}
+// exactly symmetric Kaiser-windowed sinc: nh taps, cut-off fc (fraction of the Nyquist frequency)
+std::vector<double> kaiser_sinc(int nh, double fc, double beta) {
+    std::vector<double> h(size_t(nh), 1.0);
+    const double c = 0.5 * (nh - 1), i0b = bessel_i0(beta);
+    for (int i = 0; i < (nh + 1) / 2; ++i) {
+        const double t = double(i) - c;
+        const double sn = (t == 0) ? 1.0 : std::sin(M_PI * fc * t) / (M_PI * fc * t);
+        const double u = (c > 0) ? t / c : 0.0;
+        const double w = bessel_i0(beta * std::sqrt(std::max(0.0, 1.0 - u * u))) / i0b;
+        h[size_t(i)] = h[size_t(nh - 1 - i)] = sn * w;
+    }
+    return h;
+}
+// E of the comment above for a symmetric h of nh taps (group delay (nh-1)/2); f in cycles per input sample
+double chain_error_bound(const std::vector<double>& h, int L, const Tones& t, double asum) {
+    const int nh = int(h.size());
+    double sh = 0;
+    for (double v : h) sh += v;
+    const double D = 0.5 * (nh - 1);
+    std::vector<std::complex<double>> tw(static_cast<size_t>(L));
+    for (int b = 0; b < L; ++b) tw[size_t(b)] = std::polar(1.0, -2 * M_PI * double(b) / double(L));
+    double e = 0;
+    for (int k = 0; k < 3; ++k) {
+        // c_b = sum_{t == b mod L} g[t] e^{-j 2 pi (f/L)(t - D)},  G((r+f)/L) e^{j 2 pi (f/L) D} = sum_b c_b e^{-j 2 pi r (b - 0)/L}
+        std::vector<std::complex<double>> cb(size_t(L), 0.0);
+        const double w = 2 * M_PI * t.f[k] / double(L);
+        for (int i = 0; i < nh; ++i) cb[size_t(i % L)] += (h[size_t(i)] * double(L) / sh) * std::polar(1.0, -w * (double(i) - D));
+        double ek = 0;
+        for (int r = 0; r < L; ++r) {
+            std::complex<double> G = 0;
+            for (int b = 0; b < L; ++b) G += cb[size_t(b)] * tw[size_t((int64_t(r) * b) % L)];
+            ek += (r == 0) ? std::abs(G / double(L) - 1.0) : std::abs(G) / double(L);
+        }
+        e += t.A[k] * ek;
+    }
+    return e / asum;
+}
 }   // namespace
 static void ral_check(const Json& c, Out& o) {
     const int L = c.geti("L"), M = c.geti("M"), k = c.geti("k");
+    const int form = c.geti("form", 0);
     const int p = L * k, q = M * k;
     Rng r(c.getu("seed"));
     const double ratio = double(M) / double(L);   // input samples per output sample
@@ -534,20 +701,56 @@ static void ral_check(const Json& c, Out& o) {
         t.th[j] = r.uni(0, 2 * M_PI);
         asum += t.A[j];
     }
-    const double margin = 10.0 * std::max(1.0, ratio) + 5.0 * ratio + 2.0;   // input samples
+    // ---- the call form, its filter, and the measured premise
+    const int n = c.geti("n", 10);
+    const double beta = c.geti("beta10", 50) / 10.0;
+    const int hdes = c.geti("hdes", 0);
+    const int maxLM = std::max(L, M);
+    const int pc = (L == 1) ? M : L;   // polyphase count of the converter resample() builds
+    arr_real h;
+    int nh = 0, pad = 0;
+    double half_in = 10.0 * std::max(1.0, ratio);   // filter half-length in input samples (form 0: documented n = 10)
+    double epred = -1;
+    std::string fname = "default", call = fmt("%d, %d", p, q);
+    if (form == 1) {
+        fname = "n,beta";
+        call = fmt("%d, %d, n=%d, beta=%.1f", p, q, n, beta);
+        half_in = double(n) * std::max(1.0, ratio);
+        epred = chain_error_bound(kaiser_sinc(2 * n * maxLM + 1, 1.0 / maxLM, beta), L, t, asum);
+    } else if (form == 2) {
+        fname = "custom-h";
+        if (hdes == 0) h = design_multirate_fir(L, M, n, real_t(c.geti("astop", 90)));
+        else h = to_arr(kaiser_sinc(c.geti("hlen"), 1.0 / maxLM, beta));
+        nh = h.size();
+        pad = (pc - nh % pc) % pc;
+        call = hdes == 0 ? fmt("%d, %d, h = design_multirate_fir(%d, %d, %d, %d) [%d taps]", p, q, L, M, n, c.geti("astop", 90), nh)
+                         : fmt("%d, %d, h = Kaiser(%.1f)-windowed sinc, %d taps", p, q, beta, nh);
+        half_in = 0.5 * double(nh + pad) / double(L) + 1.0;
+        std::vector<double> hv(static_cast<size_t>(nh), 0.0);
+        for (int i = 0; i < nh; ++i) hv[size_t(i)] = h[i];
+        epred = chain_error_bound(hv, L, t, asum);
+    }
+    // excluded misalignment class (reported, see props/C08.json): generated with "alignx":1, which widens the search and the bound
+    const bool alignx = c.geti("alignx", 0) != 0;
+    const double srch = alignx ? 4.0 + 0.5 * pad + 1.0 : 4.0;   // tau search range, output samples
+    const double margin = half_in + (srch + 1.0) * ratio + 2.0;   // input samples
     const double interior = 120.0 * std::max(1.0, ratio) * r.uni(1.0, 1.6);
     const int len = int(std::ceil(interior + 2 * margin)) + r.range(0, M);
+    if (form != 0) {
+        o.metric("E(filter, tones)/0.005 [" + fname + "]", epred / 0.005);
+        if (!(epred <= 0.005)) { o.discard = true; return; }
+    }
     arr_real x(len);
     for (int i = 0; i < len; ++i) x[i] = tone_at(t, double(i));
     arr_real y;
     try {
-        y = resample(x, p, q);
+        y = form == 0 ? resample(x, p, q) : (form == 1 ? resample(x, p, q, n, real_t(beta)) : resample(x, p, q, h));
     } catch (const std::exception& e) {
-        o.fail("resample:throws:default", fmt("resample(x[%d], %d, %d) threw: %s", len, p, q, e.what()));
+        o.fail("resample:throws:" + fname, fmt("resample(x[%d], %s) threw: %s", len, call.c_str(), e.what()));
         return;
     }
     const int64_t want = int64_t(L) * ((len + M - 1) / M);
-    if (y.size() != want) { o.fail("resample:size:default", fmt("resample(x[%d], %d, %d) returned %d samples, expected %lld", len, p, q, y.size(), (long long)want)); return; }
+    if (y.size() != want) { o.fail("resample:size:" + fname, fmt("resample(x[%d], %s) returned %d samples, expected %lld", len, call.c_str(), y.size(), (long long)want)); return; }
     const int i0 = int(std::ceil(margin / ratio)), i1 = int(std::floor((double(len - 1) - margin) / ratio));
     if (i1 - i0 < 60) { o.discard = true; return; }
     auto J = [&](double tau) {
@@ -556,7 +759,8 @@ static void ral_check(const Json& c, Out& o) {
         return a;
     };
     double best = 1e300, tau0 = 0;
-    for (int g = -80; g <= 80; ++g) { double v = J(0.05 * g); if (v < best) { best = v; tau0 = 0.05 * g; } }
+    const int G = int(std::lround(srch / 0.05));
+    for (int g = -G; g <= G; ++g) { double v = J(0.05 * g); if (v < best) { best = v; tau0 = 0.05 * g; } }
     double a = tau0 - 0.05, b = tau0 + 0.05;
     const double gr = 0.6180339887498949;
     double x1 = b - gr * (b - a), x2 = a + gr * (b - a), f1 = J(x1), f2 = J(x2);
@@ -568,28 +772,47 @@ static void ral_check(const Json& c, Out& o) {
     double rmax = 0;
     for (int i = i0; i <= i1; ++i) rmax = std::max(rmax, std::fabs(y[i] - tone_at(t, (double(i) + tau) * ratio)));
     const double rel = rmax / asum;
-    o.metric("|tau| (output samples)", std::fabs(tau));
-    o.metric("(|tau|-1)/0.05 slack used", std::max(0.0, std::fabs(tau) - 1.0) / 0.05);
+    const std::string suffix = form == 0 ? std::string() : " [" + fname + "]";
     // DEVIATION CLASS (reported): for 1 < p < q the default filter has order 2*n*p, not the documented 2*n*max(p,q); when
-    // 5p < q (2/11, 2/13, 2/15, 3/16) it spans fewer than two lobes of its own sinc and the pass-band error reaches 2-4 %.
+    // n*p < 2q (n = 10: 2/11, 2/13, 2/15, 3/16) it spans fewer than two lobes of its own sinc and the pass-band error reaches 2-4 %.
     // The generator marks these ratios strict=0: alignment is still asserted, the 2 % criterion is replaced by 20 %.
-    const bool short_filter = (L > 1 && M > 5 * L);
+    const bool short_filter = short_filter_class(form, L, M, n, beta);
     const bool strict = c.geti("strict", 1) != 0;
-    o.metric(strict ? "residual/(0.02 sum A)" : "residual/(0.20 sum A) [short-filter class]", rel / (strict ? 0.02 : 0.20));
+    // DEVIATION CLASS (reported): resample(x, p, 1, h) with len h not a multiple of p: FIRInterpolator::delay() is half the
+    // ZERO-PADDED length, so the output lags by up to (padding+1)/2 output samples.
+    const bool padded_interp = (form == 2 && M == 1 && pad > 0);
+    const double tau_max = alignx ? 1.05 + 0.5 * pad : 1.05;
+    if (!alignx) {
+        o.metric("|tau| (output samples)" + suffix, std::fabs(tau));
+        o.metric("(|tau|-1)/0.05 slack used" + suffix, std::max(0.0, std::fabs(tau) - 1.0) / 0.05);
+    } else o.metric("|tau|/(1.05 + padding/2) [custom-h, interpolator with zero-padded h]", std::fabs(tau) / tau_max);
+    o.metric((strict ? "residual/(0.02 sum A)" : "residual/(0.20 sum A) [short-filter class]") + suffix, rel / (strict ? 0.02 : 0.20));
     const char* kind = (L == 1) ? "decim" : (M == 1 ? "interp" : "rate");
-    if (!(std::fabs(tau) <= 1.05))
-        o.fail(std::string("resample:align:") + kind, fmt("resample(x[%d], %d, %d): best-fit tau = %.4f output samples (|tau| <= 1.05 claimed), residual there %.3g of sum A", len, p, q, tau, rel));
+    const std::string fsig = form == 0 ? std::string() : fname + ":";
+    if (!(std::fabs(tau) <= tau_max))
+        o.fail("resample:align:" + fsig + kind + (padded_interp ? ":len(h)%p!=0" : ""),
+               fmt("resample(x[%d], %s): best-fit tau = %.4f output samples (|tau| <= %.2f claimed), residual there %.3g of sum A", len, call.c_str(), tau, tau_max, rel));
     else if (strict && !(rel <= 0.02))
-        o.fail(std::string("resample:residual:") + (short_filter ? "short-filter(1<p<q,5p<q)" : kind),
-               fmt("resample(x[%d], %d, %d): at the best tau = %.4f the interior residual is %.3g of the amplitude (> 2%%)", len, p, q, tau, rel));
+        o.fail("resample:residual:" + fsig + (short_filter ? (form == 0 ? "short-filter(1<p<q,5p<q)" : "short-filter(1<p<q)") : kind),
+               fmt("resample(x[%d], %s): at the best tau = %.4f the interior residual is %.3g of the amplitude (> 2%%)", len, call.c_str(), tau, rel));
     else if (!strict && !(rel <= 0.20))
-        o.fail(std::string("resample:residual-loose:") + kind, fmt("resample(x[%d], %d, %d): at the best tau = %.4f the interior residual is %.3g of the amplitude (> 20%%)", len, p, q, tau, rel));
-    if (!strict) o.label("excluded:2%-residual-criterion:short-filter(1<p<q,5p<q)");
+        o.fail("resample:residual-loose:" + fsig + kind, fmt("resample(x[%d], %s): at the best tau = %.4f the interior residual is %.3g of the amplitude (> 20%%)", len, call.c_str(), tau, rel));
+    if (!strict) o.label(form == 0 ? "excluded:2%-residual-criterion:short-filter(1<p<q,5p<q)" : "excluded:2%-residual-criterion:n,beta:short-filter(1<p<q,n*p/q<1.5*sqrt(1+(beta/pi)^2))");
+    if (alignx) o.label("excluded:1-sample-alignment:custom-h,interpolator,len(h)%p!=0");
     o.label(std::string("kind:") + kind);
     o.label(len % M == 0 ? "len%q'==0" : "len%q'!=0");
     o.label(std::fabs(tau) < 0.05 ? "tau~0" : (std::fabs(tau) > 0.95 ? "tau~1" : "tau:fractional"));
     o.evals = i1 - i0 + 1;
-    o.nontrivial(key_of(L, M, k > 1, len % M == 0));
+    if (form == 0) { o.nontrivial(key_of(L, M, k > 1, len % M == 0)); return; }
+    o.label("form:" + fname + "/" + kind);
+    if (form == 1) {
+        o.label(n < 10 ? "n<10" : (n == 10 ? "n=10" : "n>10"));
+        o.label(beta < 4.5 ? "beta<4.5" : (beta <= 5.5 ? "beta~5" : "beta>5.5"));
+    } else {
+        o.label(hdes == 0 ? "h:design_multirate_fir(non-default hlen/astop)" : (nh % 2 ? "h:own-windowed-sinc,odd-length" : "h:own-windowed-sinc,even-length"));
+        o.label(pad == 0 ? "h:len%polyphase==0" : "h:len%polyphase!=0");
+    }
+    o.nontrivial(key_of(L, M, k > 1, len % M == 0, form, form == 1 ? n : (hdes ? 100 + nh % 2 + 2 * (pad > 0) : 99)));
 }
 static void ral_gen(Ctx& ctx) {
     const int reps = ctx.by_tier(64, 480);
@@ -602,6 +825,102 @@ static void ral_gen(Ctx& ctx) {
             const int k = (rep % 3 == 2) ? kMult[r.range(1, 6)] : 1;
             const int strict = (q.L > 1 && q.M > 5 * q.L) ? 0 : 1;   // see DEVIATION CLASS in ral_check
             ctx.eval(Json::object().set("L", q.L).set("M", q.M).set("k", k).set("strict", strict).set("seed", (long long)(sd >> 16)));
+        }
+    // the other overloads: rep % 4 = 0: (n, beta); 1: library design with non-default (hlen, astop); 2 / 3: own windowed sinc of odd / even length
+    static const int ns[] = {6, 7, 8, 9, 10, 11, 12, 14, 16};
+    for (int rep = 0; rep < reps; ++rep)
+        for (const Ratio& q : all_ratios()) {
+            if (q.L == q.M) continue;
+            if (!ctx.mine()) continue;
+            uint64_t sd = mix(ctx.seed, key_of(rep, q.L, q.M, 0xA2));
+            Rng r(sd);
+            const int k = (rep % 3 == 2) ? kMult[r.range(1, 6)] : 1;
+            const int maxLM = std::max(q.L, q.M);
+            Json cs = Json::object().set("L", q.L).set("M", q.M).set("k", k);
+            int strict = 1, alignx = 0;
+            const int n = ns[r.range(0, 8)];
+            switch (rep % 4) {
+            case 0: {
+                const int b10 = r.range(45, 90);
+                cs.set("form", 1).set("n", n).set("beta10", b10);
+                strict = short_filter_class(1, q.L, q.M, n, b10 / 10.0) ? 0 : 1;
+                break;
+            }
+            case 1: {
+                static const int as[] = {60, 70, 80, 90, 100, 110};
+                int a = as[r.range(0, 5)];
+                cs.set("form", 2).set("hdes", 0).set("n", (n == 12 && a == 90) ? 11 : n).set("astop", a);
+                break;
+            }
+            default: {
+                const int parity = (rep % 4 == 2) ? 1 : 0;
+                int hlen = 2 * n * maxLM + r.range(-maxLM, maxLM);
+                if (hlen % 2 != parity) ++hlen;
+                cs.set("form", 2).set("hdes", 1).set("hlen", hlen).set("beta10", r.range(45, 90));
+                // interpolator whose h needs >= 2 padding taps (exactly 2 with an odd length is still within one sample): misaligned
+                const int pad = (q.L - hlen % q.L) % q.L;
+                if (q.M == 1 && pad >= 2 && !(pad == 2 && hlen % 2 == 1)) alignx = 1;
+            }
+            }
+            cs.set("strict", strict);
+            if (alignx) cs.set("alignx", 1);
+            ctx.eval(cs.set("seed", (long long)(sd >> 16)));
+        }
+}
+
+// ================================================================================================ designed h is linear-phase
+// The statement's premise is "a linear-phase coefficient vector h", and the default-designed h is design_multirate_fir's.
+// For every argument set the returned vector must be symmetric about its centre, either as it stands or -- the documented
+// construction drops the (zero) last tap of an odd-length symmetric design -- with one zero tap restored at an end.
+// Tolerance 4*eps*max|h|: mirrored taps come from the same expression evaluated at mirrored arguments (a few roundings each);
+// the dropped tap is a sinc zero (~1e-20).
+VK_SUB(dsym, "design_symmetry");
+static void dsym_check(const Json& c, Out& o) {
+    const int L = c.geti("L"), M = c.geti("M"), hn = c.geti("hn"), astop = c.geti("astop");
+    const bool defaults = c.geti("defaults", 0) != 0;
+    arr_real h;
+    try {
+        h = defaults ? design_multirate_fir(L, M) : design_multirate_fir(L, M, hn, real_t(astop));
+    } catch (const std::exception& e) {
+        o.fail("design:throws", fmt("design_multirate_fir(%d, %d, %d, %d) threw: %s", L, M, hn, astop, e.what()));
+        return;
+    }
+    const int n = h.size();
+    if (n < 1 || !all_finite(h)) { o.fail("design:degenerate", fmt("design_multirate_fir(%d, %d, %d, %d) returned %d taps / a non-finite tap", L, M, hn, astop, n)); return; }
+    double sc = 0;
+    for (int i = 0; i < n; ++i) sc = std::max(sc, std::fabs(h[i]));
+    // v = h with `pre` zeros in front and `post` zeros behind
+    auto asym = [&](int pre, int post) {
+        const int m = n + pre + post;
+        auto at = [&](int i) { i -= pre; return (i < 0 || i >= n) ? 0.0 : double(h[i]); };
+        double a = 0;
+        for (int i = 0; i < m; ++i) a = std::max(a, std::fabs(at(i) - at(m - 1 - i)));
+        return a;
+    };
+    const double a0 = asym(0, 0), a1 = asym(0, 1), a2 = asym(1, 0);
+    const double best = std::min(a0, std::min(a1, a2));
+    const double tol = 4 * EPS * sc;
+    o.metric("asymmetry/(4 eps max|h|)", sc > 0 ? best / tol : 1e300);
+    if (!(sc > 0) || !(best <= tol))
+        o.fail(std::string("design:not-linear-phase:") + (L == 1 ? "decim" : M == 1 ? "interp" : (L > M ? "rate,L>M" : "rate,L<M")),
+               fmt("design_multirate_fir(%d, %d, %d, %d): %d taps, max|h|=%.3g, max |h[i]-h[n-1-i]| = %.3g as returned, %.3g with a zero tap appended, %.3g with one prepended (tolerance %.3g)", L, M,
+                   hn, astop, n, sc, a0, a1, a2, tol));
+    o.label(best == a0 ? "symmetric:as-returned" : (best == a1 ? "symmetric:last-zero-tap-dropped" : "symmetric:first-zero-tap-dropped"));
+    o.label(defaults ? "args:default" : ((hn == 12 && astop == 90) ? "args:explicit-defaults" : "args:non-default"));
+    o.label(astop >= 50 ? "astop>=50" : (astop > 21 ? "21<astop<50" : "astop<=21"));
+    o.label(n % 2 ? "len:odd" : "len:even");
+    if (std::gcd(L, M) > 1) o.label("ratio:non-reduced");
+    if (L != M) o.nontrivial(key_of(L, M, hn, astop, defaults));
+}
+static void dsym_gen(Ctx& ctx) {
+    for (int L = 1; L <= 16; ++L)
+        for (int M = 1; M <= 16; ++M) {
+            if (ctx.mine()) ctx.eval(Json::object().set("L", L).set("M", M).set("hn", 12).set("astop", 90).set("defaults", 1));
+            for (int hn : {1, 2, 3, 5, 8, 12, 24})
+                for (int astop : {10, 21, 30, 50, 60, 90, 120}) {
+                    if (!ctx.mine()) continue;
+                    ctx.eval(Json::object().set("L", L).set("M", M).set("hn", hn).set("astop", astop));
+                }
         }
 }
 
